@@ -829,6 +829,11 @@ theorem frame_step (h : Heap) (op : Op) (hm : op.mutates = false) : h.Extends (s
     split
     · exact extends_addWrapper _ _
     · exact Heap.Extends.refl h
+  | shallowCopy r =>
+    simp only [step]
+    split
+    · exact extends_addWrapper _ _
+    · exact Heap.Extends.refl h
   | call r env =>
     simp only [step]
     split
@@ -1068,6 +1073,11 @@ theorem wf_step (h : Heap) (hwf : h.WF) (op : Op) : (step h op).1.WF := by
     split
     · rename_i u hu; exact wf_addWrapper _ hwf _ (hwf u (List.mem_of_getElem? hu))
     · exact hwf
+  | shallowCopy r =>
+    simp only [step]
+    split
+    · rename_i u hu; exact wf_addWrapper _ hwf _ (hwf u (List.mem_of_getElem? hu))
+    · exact hwf
   | call r env =>
     simp only [step]
     split
@@ -1243,6 +1253,181 @@ theorem cell_run (h : Heap) (ops : List Op) (c : Nat) (hc : c < h.dicts.length)
 example : (run Heap.empty [.newDict [("b", 1)], .wrapFun 0 ["a", "b"] [], .setDefault 0 [("b", 5)],
     .wrapExplicit 1 ["a", "b"] (some 0), .partialEval 1 [("q", 3)], .setDefault 2 [("a", 4)]]).1.dicts[0]?
     = some [("b", 1)] := by decide
+
+/-! ## both container policies of the constructor
+
+  Everything above is about `step` (re-wrapping and an explicit `defaults=` ALIAS the dict).  The constructor
+  may just as well copy these containers (`stepCopy`): the statement promises nothing about `set_default`
+  reaching, or not reaching, a re-wrap.  `stepCopy` differs from `step` in exactly two operations, so every
+  theorem about the other operations (wrapping a function, calling, partial evaluation, deep copy, set_default,
+  …) holds for it literally (`stepCopy_eq`); the frame / invariant theorems for all histories are proved for
+  both policies (`…P`). -/
+
+theorem stepCopy_eq (h : Heap) (op : Op) (h1 : ∀ r, op ≠ .rewrap r)
+    (h2 : ∀ fn ps c, op ≠ .wrapExplicit fn ps (some c)) : stepCopy h op = step h op := by
+  cases op with
+  | rewrap r => exact absurd rfl (h1 r)
+  | wrapExplicit fn ps dc =>
+    cases dc with
+    | none => rfl
+    | some c => exact absurd rfl (h2 fn ps c)
+  | _ => rfl
+
+theorem frame_stepCopy (h : Heap) (op : Op) (hm : op.mutates = false) : h.Extends (stepCopy h op).1 := by
+  cases op with
+  | rewrap r =>
+    simp only [stepCopy]; split
+    · exact extends_addFresh _ _ _ _ _
+    · exact Heap.Extends.refl h
+  | wrapExplicit fn ps dc =>
+    cases dc with
+    | none => exact frame_step h _ hm
+    | some c =>
+      simp only [stepCopy]; split
+      · exact extends_addFresh _ _ _ _ _
+      · exact Heap.Extends.refl h
+  | newDict d => exact frame_step h _ hm
+  | wrapFun fn names dflts => exact frame_step h _ hm
+  | wrapFunKw fn names dflts kw kd => exact frame_step h _ hm
+  | wrapConst fn => exact frame_step h _ hm
+  | shallowCopy r => exact frame_step h _ hm
+  | call r env => exact frame_step h _ hm
+  | callVec r env lens => exact frame_step h _ hm
+  | partialEval r σ => exact frame_step h _ hm
+  | setDefault r σ => exact frame_step h _ hm
+  | removeDefault r ks => exact frame_step h _ hm
+  | deepcopy r => exact frame_step h _ hm
+
+theorem wf_stepCopy (h : Heap) (hwf : h.WF) (op : Op) : (stepCopy h op).1.WF := by
+  cases op with
+  | rewrap r =>
+    simp only [stepCopy]; split
+    · exact wf_addFresh _ hwf _ _ _ _
+    · exact hwf
+  | wrapExplicit fn ps dc =>
+    cases dc with
+    | none => exact wf_step h hwf _
+    | some c =>
+      simp only [stepCopy]; split
+      · exact wf_addFresh _ hwf _ _ _ _
+      · exact hwf
+  | newDict d => exact wf_step h hwf _
+  | wrapFun fn names dflts => exact wf_step h hwf _
+  | wrapFunKw fn names dflts kw kd => exact wf_step h hwf _
+  | wrapConst fn => exact wf_step h hwf _
+  | shallowCopy r => exact wf_step h hwf _
+  | call r env => exact wf_step h hwf _
+  | callVec r env lens => exact wf_step h hwf _
+  | partialEval r σ => exact wf_step h hwf _
+  | setDefault r σ => exact wf_step h hwf _
+  | removeDefault r ks => exact wf_step h hwf _
+  | deepcopy r => exact wf_step h hwf _
+
+theorem stepCopy_mutator (h : Heap) (op : Op) (hm : op.mutates = true) : stepCopy h op = step h op := by
+  cases op with
+  | setDefault r σ => rfl
+  | removeDefault r ks => rfl
+  | _ => simp [Op.mutates] at hm
+
+/-- one operation, either policy: nothing that existed is changed by a non-mutating operation -/
+theorem frame_stepP (pol : Policy) (h : Heap) (op : Op) (hm : op.mutates = false) :
+    h.Extends (stepP pol h op).1 := by
+  cases pol with
+  | share => exact frame_step h op hm
+  | copy => exact frame_stepCopy h op hm
+
+theorem ws_stepP (pol : Policy) (h : Heap) (op : Op) : h.ws <+: (stepP pol h op).1.ws := by
+  cases pol with
+  | share => exact ws_step h op
+  | copy =>
+    cases hm : op.mutates with
+    | false => exact (frame_stepCopy h op hm).2
+    | true => simp only [stepP, stepCopy_mutator h op hm]; exact ws_step h op
+
+theorem wf_stepP (pol : Policy) (h : Heap) (hwf : h.WF) (op : Op) : (stepP pol h op).1.WF := by
+  cases pol with
+  | share => exact wf_step h hwf op
+  | copy => exact wf_stepCopy h hwf op
+
+theorem cell_stepP (pol : Policy) (h : Heap) (op : Op) (c : Nat) (hc : c < h.dicts.length)
+    (hno : ∀ r u, op.target = some r → h.ws[r]? = some u → u.cell ≠ c) :
+    (stepP pol h op).1.dicts[c]? = h.dicts[c]? := by
+  cases pol with
+  | share => exact cell_step h op c hc hno
+  | copy =>
+    cases hm : op.mutates with
+    | false =>
+      have hx : h.dicts[c]? = some h.dicts[c] := List.getElem?_eq_getElem hc
+      rw [hx]
+      exact getElem?_of_prefix (frame_stepCopy h op hm).1 hx
+    | true => simp only [stepP, stepCopy_mutator h op hm]; exact cell_step h op c hc hno
+
+theorem runP_cons (pol : Policy) (h : Heap) (op : Op) (ops : List Op) :
+    runP pol h (op :: ops) = ((runP pol (stepP pol h op).1 ops).1, (stepP pol h op).2 :: (runP pol (stepP pol h op).1 ops).2) := rfl
+
+/-- **for all histories, under either policy**: wrap / re-wrap / copy / call / partially_evaluate / deepcopy
+    leave every pre-existing wrapper and dict unchanged -/
+theorem frame_runP (pol : Policy) (h : Heap) (ops : List Op) (hm : ∀ op ∈ ops, op.mutates = false) :
+    h.Extends (runP pol h ops).1 := by
+  induction ops generalizing h with
+  | nil => exact Heap.Extends.refl h
+  | cons op ops ih =>
+    rw [runP_cons]
+    exact (frame_stepP pol h op (hm op (by simp))).trans (ih _ (fun o ho => hm o (by simp [ho])))
+
+/-- … and every call of a pre-existing wrapper answers as before -/
+theorem frame_callP (pol : Policy) (h : Heap) (ops : List Op) (hm : ∀ op ∈ ops, op.mutates = false)
+    (r : Nat) (x : UF × Dict) (hl : h.look r = some x) (env : Dict) :
+    (step (runP pol h ops).1 (.call r env)).2 = (step h (.call r env)).2 :=
+  call_of_look (by rw [hl, look_of_extends (frame_runP pol h ops hm) hl]) env
+
+/-- a wrapper's function and parameter list never change, under either policy, whatever is done -/
+theorem ws_runP (pol : Policy) (h : Heap) (ops : List Op) : h.ws <+: (runP pol h ops).1.ws := by
+  induction ops generalizing h with
+  | nil => exact List.prefix_rfl
+  | cons op ops ih => rw [runP_cons]; exact (ws_stepP pol h op).trans (ih _)
+
+theorem wf_runP (pol : Policy) (h : Heap) (hwf : h.WF) (ops : List Op) : (runP pol h ops).1.WF := by
+  induction ops generalizing h with
+  | nil => exact hwf
+  | cons op ops ih => rw [runP_cons]; exact ih _ (wf_stepP pol h hwf op)
+
+/-- a dict (e.g. a user-supplied one) changes only through a mutator on a wrapper that owns it — either policy -/
+theorem cell_runP (pol : Policy) (h : Heap) (ops : List Op) (c : Nat) (hc : c < h.dicts.length)
+    (hno : ∀ op ∈ ops, ∀ r u, op.target = some r → (runP pol h ops).1.ws[r]? = some u → u.cell ≠ c) :
+    (runP pol h ops).1.dicts[c]? = h.dicts[c]? := by
+  induction ops generalizing h with
+  | nil => rfl
+  | cons op ops ih =>
+    rw [runP_cons] at hno ⊢
+    have h1 : (stepP pol h op).1.dicts[c]? = h.dicts[c]? := by
+      apply cell_stepP pol h op c hc
+      intro r u ht hw
+      apply hno op (by simp) r u ht
+      exact getElem?_of_prefix ((ws_stepP pol h op).trans (ws_runP pol _ ops)) hw
+    have hc1 : c < (stepP pol h op).1.dicts.length := by
+      by_contra hcon
+      rw [List.getElem?_eq_none (by omega), List.getElem?_eq_getElem hc] at h1
+      cases h1
+    rw [ih (stepP pol h op).1 hc1 (fun o ho => hno o (by simp [ho])), h1]
+
+/-- under the copying policy a re-wrap has its own dict: it and all older wrappers do not reach each other
+    (`fresh_independent` applies); under the sharing policy `set_default` reaches both (`setDefault_reach`) -/
+theorem rewrapCopy_fresh (h : Heap) (r : Nat) (u : UF) (d : Dict) (hl : h.look r = some (u, d)) :
+    stepCopy h (.rewrap r) = h.addFresh u.fn u.callable u.params d := by
+  simp only [stepCopy, hl]
+
+/-- under the copying policy an explicit `defaults=` dict of the user is never written to by any history:
+    no wrapper owns it -/
+theorem explicitCopy_fresh (h : Heap) (fn : Nat) (ps : List String) (c : Nat) (d : Dict) (hd : h.dicts[c]? = some d) :
+    stepCopy h (.wrapExplicit fn ps (some c)) = h.addFresh fn true ps d := by
+  simp only [stepCopy, hd]
+
+example : (runP .copy Heap.empty [.wrapFun 0 ["x", "y"] [1], .rewrap 0, .setDefault 1 [("x", 2)], .call 0 []]).2.getLast?
+    = some (.err .missingArg) := by decide
+
+example : (runP .share Heap.empty [.wrapFun 0 ["x", "y"] [1], .rewrap 0, .setDefault 1 [("x", 2)], .call 0 []]).2.getLast?
+    = some (.value 0 [("x", 2), ("y", 1)]) := by decide
 
 /-! ## vectorize=True: one invocation per row -/
 
